@@ -4,7 +4,7 @@
 From Coq Require Import List NArith ZArith Bool.
 Import ListNotations.
 From JV Require Import Model.ScopeAst Model.ScopeIdTrack Model.ScopeGuards Model.ScopeFrameExec
-  Spec.ScopeSpecStmt Proofs.ScopeSymProofs Proofs.ScopeC03Proofs.
+  Spec.ScopeSpecStmt Proofs.ScopeSymProofs Proofs.ScopeC03Proofs Proofs.ScopeAlphaProofs.
 
 (* static: a name resolves to the frame's own variable when the frame mentions it — as a
    parameter of the construct, as a variable assigned here (initialised from the enclosing
@@ -28,35 +28,67 @@ Theorem binding_covers : forall P ps body,
 Proof. exact binding_covers_thm. Qed.
 Print Assumptions binding_covers.
 
-(* dynamic: for EVERY program of the core fragment {output, if/elif/else, for (target, else,
-   loop.index), set, set ns.a, namespace(), block set, with (scope), filter block}, every render
-   arguments d and every fuel, the generated code renders what the scoping rules define and
-   exports the same variables — under the decidable guards
+(* dynamic: for EVERY program of the fragment {output, if/elif/else, for (target, else, loop
+   filter, loop.index), set, set ns.a, namespace(), block set, with (targets evaluated outside the
+   new scope), filter block}, every render arguments d and every fuel, the generated code renders
+   what the scoping rules define and exports the same variables — under the decidable guards
      wf_names  : reserved names (loop, caller, namespace, ...) are never assigned,
      noalias   : CPython's identifier normalisation is injective on the program's names,
      guard_rbw : no name a frame initialises as `undefined` is supplied by the context.
-   Carried by correspondence only (not in this fragment): loop filters, with-targets, macros,
-   call blocks. *)
+   The loop filter runs as its own Python function (activation) whose locals persist across
+   items; the with-targets are written after the frame is entered.
+   Missing constructs (carried by correspondence only): macros, macro calls, call blocks. *)
+Theorem scoping_correct_loopfilter_with : forall (pynorm : name -> name) (priv : name -> bool) d p,
+  core2_prog p = true -> wf_names p = true -> noalias pynorm p = true -> guard_rbw p d = true ->
+  forall fuel, frender pynorm priv d fuel p = srender priv d fuel p.
+Proof. exact scoping_correct_ext_thm. Qed.
+Print Assumptions scoping_correct_loopfilter_with.
+
+(* the first-round statement (no loop filter, no with-targets) is the special case *)
 Theorem scoping_correct_core : forall (pynorm : name -> name) (priv : name -> bool) d p,
   core_prog p = true -> wf_names p = true -> noalias pynorm p = true -> guard_rbw p d = true ->
   forall fuel, frender pynorm priv d fuel p = srender priv d fuel p.
 Proof. exact scoping_correct_core_thm. Qed.
 Print Assumptions scoping_correct_core.
 
-Open Scope N_scope.
-(* fuel adequacy: in the core fragment recursion is structural; with more fuel than statements
+(* fuel adequacy: in this fragment recursion is structural; with more fuel than statements
    neither interpreter runs out of fuel, so the equality above is about genuine results *)
 Theorem C03_fuel_adequate : forall (pynorm : name -> name) (priv : name -> bool) d p fuel,
-  core_prog p = true -> wf_names p = true -> noalias pynorm p = true -> guard_rbw p d = true ->
+  core2_prog p = true -> wf_names p = true -> noalias pynorm p = true -> guard_rbw p d = true ->
   (ssize_l p < fuel)%nat ->
   srender priv d fuel p <> Err EFuel /\ frender pynorm priv d fuel p <> Err EFuel.
 Proof.
   intros pynorm priv d p fuel Hc Hw Hn Hg Hs. split.
   - exact (fuel_adequate_thm priv d p fuel Hc Hs).
-  - rewrite (scoping_correct_core pynorm priv d p Hc Hw Hn Hg fuel). exact (fuel_adequate_thm priv d p fuel Hc Hs).
+  - rewrite (scoping_correct_loopfilter_with pynorm priv d p Hc Hw Hn Hg fuel). exact (fuel_adequate_thm priv d p fuel Hc Hs).
 Qed.
 Print Assumptions C03_fuel_adequate.
 
+(* alpha invariance: renaming the variables of the template and of the render arguments by an
+   injective function that fixes the reserved names the semantics mentions (loop, namespace) and
+   respects the underscore convention does not change the rendered text; the exported variables
+   are renamed.  For the reference semantics on the whole proved fragment, and as a corollary for
+   the generated code (both programs under the guards of scoping_correct_loopfilter_with). *)
+Theorem alpha_invariance_spec : forall (rho : name -> name) d (priv priv' : name -> bool) fuel p,
+  (forall x y, rho x = rho y -> x = y) -> rho n_loop = n_loop -> rho n_namespace = n_namespace ->
+  (forall x, priv' (rho x) = priv x) -> core2_prog p = true ->
+  srender priv' (rd rho d) fuel (rprog rho p) = robs rho (srender priv d fuel p).
+Proof. intros rho d priv priv' fuel p Hi Hl Hn Hp Hc. exact (srender_alpha rho Hi Hl Hn d priv priv' Hp fuel p Hc). Qed.
+Print Assumptions alpha_invariance_spec.
+
+Theorem alpha_invariance : forall (rho : name -> name) d (priv priv' : name -> bool) pynorm fuel p,
+  (forall x y, rho x = rho y -> x = y) -> rho n_loop = n_loop -> rho n_namespace = n_namespace ->
+  (forall x, priv' (rho x) = priv x) ->
+  core2_prog p = true -> wf_names p = true -> noalias pynorm p = true -> guard_rbw p d = true ->
+  core2_prog (rprog rho p) = true -> wf_names (rprog rho p) = true -> noalias pynorm (rprog rho p) = true ->
+  guard_rbw (rprog rho p) (rd rho d) = true ->
+  frender pynorm priv' (rd rho d) fuel (rprog rho p) = robs rho (frender pynorm priv d fuel p).
+Proof.
+  intros rho d priv priv' pynorm fuel p Hi Hl Hn Hp. exact (frender_alpha rho Hi Hl Hn d priv priv' Hp pynorm fuel p).
+Qed.
+Print Assumptions alpha_invariance.
+
+Open Scope N_scope.
 (* the guards are needed.  a = 10, b = 11, i = 12, x = 13 *)
 Definition idn (x : name) : name := x.
 Definition nopriv (x : name) : bool := false.
@@ -93,4 +125,17 @@ Definition d_ex : list (name * value) := [(13, VList [VInt 0%Z; VInt 7%Z])].
 Example C03_example :
   core_prog p_ex = true /\ wf_names p_ex = true /\ noalias idn p_ex = true /\ guard_rbw p_ex d_ex = true /\
   frender idn nopriv d_ex 20%nat p_ex = Ok ([49; 49; 55; 50; 49; 88; 49; 55], [(10, [49]); (14, ns_text); (11, [39; 88; 49; 39])]).
+Proof. vm_compute. repeat split. Qed.
+
+(* non-vacuity of the extended fragment: a loop filter reading an outer variable and the loop
+   target, with-targets evaluated outside the new scope *)
+Definition p_ex2 : list stmt :=
+  [ SSet 10 (EInt 1%Z);
+    SFor 12 (EName 13) (Some (EAdd (EName 12) (EName 10)))
+      [ SWith [(10, EAdd (EName 10) (EName 12)); (11, EName 10)] [SOut [EName 10; EName 11; EAttr 0 0]] ] [SOut [EStr [120]]] ].
+Definition d_ex2 : list (name * value) := [(13, VList [VInt (-1)%Z; VInt 4%Z])].
+Example C03_example_ext :
+  core2_prog p_ex2 = true /\ core_prog p_ex2 = false /\ wf_names p_ex2 = true /\ noalias idn p_ex2 = true /\
+  guard_rbw p_ex2 d_ex2 = true /\
+  frender idn nopriv d_ex2 20%nat p_ex2 = Ok ([53; 49; 49], [(10, [49])]).
 Proof. vm_compute. repeat split. Qed.
